@@ -22,6 +22,7 @@ VecLaw(o) ==
        [] o.op = "neg" -> o.r = <<0 - o.a[1], 0 - o.a[2], 0 - o.a[3]>>
        [] o.op \in {"mul", "rmul"} -> o.r = <<o.a[1] * o.n, o.a[2] * o.n, o.a[3] * o.n>>
        [] o.op = "floordiv" -> o.r = <<o.a[1] \div o.n, o.a[2] \div o.n, o.a[3] \div o.n>>
+       [] o.op = "truediv" -> <<o.r[1] * o.n, o.r[2] * o.n, o.r[3] * o.n>> = o.a    \* operands chosen divisible
 RecLaw(o) == /\ o.eq = (o.same /\ o.fields) /\ o.ne = ~o.eq /\ (o.eq => o.heq)
 AliasLaw(o) == o.got = o.set
 
